@@ -256,6 +256,31 @@ pub fn invalid_menu(m: &Model) -> Vec<InvalidCase> {
             ));
         }
     }
+    // a full data definition under an identifier that is already taken by other content, with a key and a dataset that do not
+    // exist yet (the library may accept this by re-using the existing item, or refuse it; if it refuses, nothing may stay behind)
+    if let Some(si) = m.set_idx("s0") {
+        if let Some(d) = m.sets[si].as_ref().unwrap().data.iter().flatten().find(|d| d.id.is_some()) {
+            let taken = d.id.clone();
+            v.push(mk(
+                "taken-data-id+other-content-new-key",
+                Some(good_t.clone()),
+                vec![DataT::New { set: "s0".into(), key: "knew".into(), val: Val::S("other".into()), id: taken.clone() }],
+                nid.clone(),
+                Some(good_t.clone()),
+                vec![newdata("s0", "knew", "other")],
+                nid.clone(),
+            ));
+            v.push(mk(
+                "new-dataset-data-then-taken-data-id+other-content",
+                Some(good_t.clone()),
+                vec![newdata("snew", "knew", "x"), DataT::New { set: "s0".into(), key: "k0".into(), val: Val::S("other".into()), id: taken }],
+                nid.clone(),
+                Some(good_t.clone()),
+                vec![newdata("snew", "knew", "x"), newdata("s0", "k0", "other")],
+                nid.clone(),
+            ));
+        }
+    }
     // the id of the most recently added annotation (the holder is the last item of its store)
     if let Some(a) = m.anns.iter().flatten().filter(|a| a.id.is_some()).last() {
         if m.anns.iter().flatten().find(|a| a.id.is_some()).map(|f| f.id != a.id).unwrap_or(false) {
